@@ -126,6 +126,56 @@ def run(ctx):
             rep.check(w is None and w2 is None, "C19.R2", "new:normal-path-after-both-gates", "the pass-through value is reached only after both tests were false",
                       "a NaN or subnormal can reach the pass-through value", site=new.loc())
 
+    # R6 a division's guard is a test of the DIVISOR.  The normalising functions divide by a length that det_sqrt_f32 clamps to 0
+    # for a non-finite argument; their siblings test the value they divide by (`len <= EPSILON`).  A guard on something else
+    # (the squared length) lets an overflowed square through: 1/0 → inf/NaN, which `Quat::new` asserts against in debug builds
+    # only — a finite input on which debug and release disagree.
+    rep.rule("C19.R6", "sibling agreement: every float division by a computed value is dominated by a comparison on that same value (named exception: the Div operator itself)")
+    DIV_EXEMPT = {"<warp_math::scalar::F32Scalar as std::ops::Div>::div": "IEEE division is the operation; the quotient is re-canonicalised by F32Scalar::new"}
+    n_div = 0
+    for f in sorted(prog.fns.values(), key=lambda f: f.id):
+        if f.crate not in ("warp_math", "warp_geom") or "::tests" in f.id or f.is_closure():
+            continue
+        raw = f.rec.get("_raw")
+        if raw is not None and '"Div"' not in raw:
+            continue
+        for bi, si, place, rv, line in f.assigns():
+            if rv["r"] != "bin" or rv["op"] != "Div" or "k" in rv["b"] or f.locals[place[0]] not in ("f32", "f64"):
+                continue
+            n_div += 1
+            if f.id in DIV_EXEMPT:
+                rep.ok("C19.R6", "division-guard:%s:exempt" % f.id.replace("warp_math::", ""), DIV_EXEMPT[f.id], site=f.loc(line))
+                continue
+            src = {x for x in near_origins(f, rv["b"]) if x[0] != "const"}
+            guarded = False
+            for c in comparisons(f):
+                for o in (c[2], c[3]):
+                    if {x for x in near_origins(f, o) if x[0] != "const"} & src and dominates(f, [c[0]], [bi]) is None:
+                        guarded = True
+            rep.check(guarded, "C19.R6", "division-guard:%s" % f.id.replace("warp_math::", ""), "the divisor itself is tested before the division",
+                      "%s divides by a computed value (line %s) that no dominating comparison tests: its guard looks at a different value, so a divisor that det_sqrt_f32 clamped to 0 "
+                      "(overflowed square) yields inf/NaN — caught by a debug-only assertion, silent in release" % (f.name, line), site=f.loc(line))
+    rep.check(n_div >= 3, "C19.R6", "division-guard:sites", "%d float divisions by computed values examined" % n_div, "only %d such divisions found" % n_div, site="warp_math")
+    # R4' signed abs()/negation that can overflow: `i64::abs()` and unary minus on a signed integer panic in debug builds and
+    # wrap in release for the MIN value.  The math crates use `unsigned_abs`; the remaining negations are an enumerated set.
+    rep.rule("C19.R4", "no overflow-panicking signed abs() in the math crates; overflow-checked negations are an enumerated, reasoned set")
+    abs_sites, neg_sites = [], []
+    for f in prog.fns.values():
+        if not (f.crate in ("warp_math", "warp_geom") or f.id.startswith(("warp_core::fixed::", "echo_wasm_abi::codec::"))) or "::tests" in f.id:
+            continue
+        for bi, b in enumerate(f.blocks):
+            t_ = b["t"]
+            if t_["t"] == "call" and re.search(r"num::<impl i(8|16|32|64|128|size)>::(abs|pow)$", f.callee_of(t_) or ""):
+                abs_sites.append("%s:%s" % (f.id, (f.callee_of(t_) or "").rsplit("::", 1)[-1]))
+            if t_["t"] == "assert" and t_.get("msg") == "OverflowNeg":
+                neg_sites.append(f.id)
+    rep.check(not abs_sites, "C19.R4", "signed-abs:none", "no signed abs()/pow() in the math crates (unsigned_abs is used)",
+              "signed integer %s: panics in debug builds and wraps in release for the minimum value — the result depends on the build profile" % abs_sites[:3], site=abs_sites[0].split(":")[0] if abs_sites else "warp_math")
+    NEG_OK = {"warp_math::fixed_q32_32::from_f32": "negates an i128 magnitude that is at most 2^64 (a u64 widened): cannot be i128::MIN"}
+    new_neg = sorted(set(neg_sites) - set(NEG_OK))
+    rep.check(not new_neg, "C19.R4", "signed-negation:enumerated", "%d overflow-checked negation(s), all reasoned" % len(set(neg_sites)),
+              "new overflow-checked negation of a signed integer in %s: debug panics / release wraps for MIN" % new_neg[:2], site=new_neg[0] if new_neg else "warp_math")
+
     frx = re.compile(FORBIDDEN)
     scopes = {"warp_math": lambda f: f.crate == "warp_math", "warp_geom": lambda f: f.crate == "warp_geom",
               "warp_core::fixed": lambda f: f.id.startswith("warp_core::fixed::"), "echo_wasm_abi::codec": lambda f: f.id.startswith("echo_wasm_abi::codec::")}
